@@ -161,10 +161,14 @@ Definition img_from_gray_loop (w h : Z) (data : list Z) : res raster :=
   paint_loop w h 0 0 (gray_cell w data) (r_new w h c_zero).
 
 (* ConvertGfxStateToPngBytes up to png.Encode: the image handed to the encoder (None: "No image
-   to render").  MONO goes through CreateFromBytes (error only logged) and ConvertToImage(true). *)
+   to render").  MONO: data shorter than ceil(W/8)*H are padded with zero bytes (the F15 repair,
+   /repo 645e4d4), then CreateFromBytes (error only logged) and ConvertToImage(true). *)
+Definition pad_mono (w h : Z) (data : list Z) : list Z :=
+  let need := ceil_div8 w * h in
+  if zlen data <? need then data ++ zrepeat 0 (need - zlen data) else data.
 Definition gfx_state_image_loop (g : gfx) : res (option raster) :=
   if gtype g =? 0 then
-    do r <- to_image_loop true (fst (create_from_bytes (gw g) (gh g) (gdata g))); Ok (Some r)
+    do r <- to_image_loop true (fst (create_from_bytes (gw g) (gh g) (pad_mono (gw g) (gh g) (gdata g)))); Ok (Some r)
   else if gtype g =? 1 then do r <- img_from_rgb_loop (gw g) (gh g) (gdata g); Ok (Some r)
   else if gtype g =? 2 then do r <- img_from_gray_loop (gw g) (gh g) (gdata g); Ok (Some r)
   else Ok None.
@@ -232,6 +236,6 @@ End Closed.
 (* the image ConvertGfxStateToPngBytes encodes, closed form *)
 Definition gfx_state_at (g : gfx) (X Y : Z) : rgba :=
   if gtype g =? 0 then
-    let i := fst (create_from_bytes (gw g) (gh g) (gdata g)) in
+    let i := fst (create_from_bytes (gw g) (gh g) (pad_mono (gw g) (gh g) (gdata g))) in
     to_image_at (znth 0 (idata i)) true (gw g) (gh g) (gwib (ig i)) X Y
   else img_from_at (zlen (gdata g)) (znth 0 (gdata g)) (gtype g) (gw g) (gh g) X Y.
